@@ -101,6 +101,25 @@ func (e *errFlow) follow(v ssa.Value, depth int) {
 				}
 			case strings.Contains(name, "zap.SugaredLogger"):
 				e.Logged = true
+			case sc != nil && InRepo(sc) && sc.Blocks != nil && depth < 20:
+				// a repository helper that wraps, returns or hands off the error
+				args := cc.Args
+				for i, a := range args {
+					if a != v || i >= len(sc.Params) {
+						continue
+					}
+					sub := &errFlow{p: e.p, seen: map[ssa.Value]bool{}}
+					sub.follow(sc.Params[i], depth+1)
+					if len(sub.Returned) > 0 {
+						if val, ok := u.(ssa.Value); ok {
+							e.follow(val, depth+1)
+						}
+					}
+					e.Sent = append(e.Sent, sub.Sent...)
+					if sub.Logged {
+						e.Logged = true
+					}
+				}
 			}
 		}
 	}
